@@ -47,10 +47,12 @@ Definition choose (kd : hkind) (ae_lines : list bytes) : option coding :=
   find (fun k => has_accept_encoding (peek ae_lines) (tok k)) (order kd).
 
 (* ---- response header pieces ---- *)
-(* ContentType(): the default when none is set *)
-Definition content_type (ct : bytes) : bytes := match ct with [] => defaultContentType | _ => ct end.
-Definition compressible (ct : bytes) : bool :=
-  let c := content_type ct in
+(* ContentType(): the default when none is set, unless noDefaultContentType (Server.NoDefaultContentType /
+   Header.SetNoDefaultContentType) *)
+Definition content_type (nodef : bool) (ct : bytes) : bytes :=
+  match ct with [] => if nodef then [] else defaultContentType | _ => ct end.
+Definition compressible (nodef : bool) (ct : bytes) : bool :=
+  let c := content_type nodef ct in
   has_prefix strTextSlash c || has_prefix strApplicationSlash c || has_prefix strImageSVG c
   || has_prefix strImageIcon c || has_prefix strFontSlash c || has_prefix strMultipartSlash c.
 
@@ -160,6 +162,7 @@ Section Codec.
   Record resp := {
     r_ce : bytes;              (* Content-Encoding *)
     r_ct : bytes;              (* Content-Type as set by the handler ([] = not set) *)
+    r_nodefct : bool;          (* Header.noDefaultContentType *)
     r_vary : list bytes;       (* Vary lines *)
     r_streamed : bool;         (* bodyStream != nil *)
     r_chunks : list bytes      (* the body: one element when buffered; the reads of the body stream otherwise *)
@@ -175,7 +178,7 @@ Section Codec.
     match r_ce r with
     | _ :: _ => unchanged r                                (* already has a Content-Encoding *)
     | [] =>
-      if negb (compressible (r_ct r)) then unchanged r
+      if negb (compressible (r_nodefct r) (r_ct r)) then unchanged r
       else if r_streamed r then
         {| c_ce := tok k; c_vary := add_vary (r_vary r) strAcceptEncoding;
            c_body := stream_compress k lvl (r_chunks r) sched |}
@@ -194,5 +197,18 @@ Section Codec.
     match choose kd ae_lines with
     | None => (None, unchanged r)
     | Some k => (Some k, compress_body k (level_for kd k brotli_level other_level) inflight cap sched r)
+    end.
+  (* CompressHandler*(CompressHandler*(h)): the outer wrapper sees what the inner one left *)
+  Definition wire_bytes (s : sres) (orig : bytes) : bytes :=
+    match s with SOk (WCoded _ p _) => p | SOk (WPlain b) => b | SErr => orig end.
+  Definition compress_handler_twice (kd : hkind) (brotli_level other_level : Z) (ae_lines : list bytes)
+             (inflight cap : Z) (sched : list bool) (r : resp) : cresp :=
+    let c1 := snd (compress_handler kd brotli_level other_level ae_lines inflight cap sched r) in
+    let r2 := {| r_ce := c_ce c1; r_ct := r_ct r; r_nodefct := r_nodefct r; r_vary := c_vary c1;
+                 r_streamed := r_streamed r; r_chunks := [wire_bytes (c_body c1) (r_body r)] |} in
+    let c2 := snd (compress_handler kd brotli_level other_level ae_lines inflight cap sched r2) in
+    match c_body c2 with
+    | SOk (WPlain _) => {| c_ce := c_ce c2; c_vary := c_vary c2; c_body := c_body c1 |}   (* outer left it alone *)
+    | _ => c2                                                                                (* outer coded the inner output *)
     end.
 End Codec.
